@@ -9,6 +9,7 @@ def run_check(tier, seed, replay=None):
     if replay:
         return replay_hex(c, "C02", replay)
     wd = workdir("c02")
+    mc_predict(c, wd, tier)
     gen = gen_streams(wd, tier, seed + 3)
     res = replay_generated(c, wd, gen)
     n, acc = account(c, res, "C02", "generated")
